@@ -2,6 +2,7 @@ package main
 
 import (
 	"encoding/json"
+	"go/ast"
 	"flag"
 	"fmt"
 	"os"
@@ -199,6 +200,36 @@ func fatal(prop, verif string, err error) {
 }
 
 func dumpModel(p *Program, what string) {
+	if strings.HasPrefix(what, "paths:") {
+		parts := strings.Split(what, ":")
+		pk := p.Pkg(modPath + "/" + parts[1])
+		recv := ""
+		fn := parts[2]
+		if i := strings.Index(fn, "."); i >= 0 {
+			recv, fn = fn[:i], fn[i+1:]
+		}
+		fd := funcDecl(pk, recv, fn)
+		env := newProvEnv(pk, fd)
+		body := fd.Body
+		for _, st := range fd.Body.List {
+			if rs, ok := st.(*ast.ReturnStmt); ok && len(rs.Results) == 1 {
+				if fl, ok := ast.Unparen(rs.Results[0]).(*ast.FuncLit); ok {
+					body = fl.Body
+				}
+			}
+		}
+		g := buildCFG(pk, body)
+		paths, complete := enumPaths(g, env.condFormula, 4000)
+		fmt.Println("paths:", len(paths), "complete:", complete)
+		for _, pa := range paths {
+			out := statusOutcome(pk, env, pk.TypesInfo.Defs[fd.Name], pa)
+			if len(parts) > 3 {
+				out = returnOutcome(pk, env, pk.TypesInfo.Defs[fd.Name], pa)
+			}
+			fmt.Printf("%s  =>  %s\n", factString(pa.Facts), out)
+		}
+		return
+	}
 	switch what {
 	case "cmds":
 		c := &Ctx{P: p, Analysed: map[string]int{}, shared: map[string]any{}}
